@@ -2,5 +2,5 @@ INIT GenInit
 NEXT GenNext
 CONSTANTS
   N = 2
-  Labels = {"none", "dep", "dep-arch", "unselected", "other-arch", "after-subst", "fallback"}
+  Labels = {"none", "dep", "dep-arch", "unselected", "other-arch", "after-subst", "fallback", "excluded"}
   Fill = 1
